@@ -21,8 +21,8 @@ import (
 
 type C16File struct {
 	Name     string          `json:"name"`
-	Old      *fstree.Content `json:"old"`   // what the receiver holds
-	Edits    []fstree.Edit   `json:"edits"` // applied to Old give the sender's version
+	Old      *fstree.Content `json:"old"`                 // what the receiver holds
+	Edits    []fstree.Edit   `json:"edits"`               // applied to Old give the sender's version
 	BlockLen int             `json:"block_len,omitempty"` // ref mode: block length of the reference signatures
 }
 
